@@ -70,7 +70,12 @@ OpNames == {"Write", "WriteTrueTypePDF", "WriteOpenTypeCFFPDF", "AsCFFWrite", "S
             "GlyphBBoxes", "GlyphBBox", "GlyphBBoxPDF", "MakeGlyphNames", "GetFontInfo", "Names",
             "Layout", "GsubApply", "GposApply", "ExplainGsub", "ExplainGpos"}
 
-\* The design: no access W/Wc to a shared name anywhere in this table.
+\* The footprint claim: NO OPERATION WRITES TO ANY LOCATION REACHABLE FROM THE FONT, WHATEVER THE FONT
+\* CONTAINS -- no access W/Wc to a shared name anywhere in this table.  The table has no column for the
+\* contents of the font: the claim is about every value a program can build (explicit zero entries in
+\* map-typed tables, unsorted or duplicate entries where the types allow them, empty-but-not-nil slices,
+\* malformed and over-budget lookup lists), not only about what sfnt.Read produces.  Binding V1
+\* therefore measures every operation also on such fonts (harness/cmd/c16/degenerate.go).
 BaseFootprint(op) ==
   CASE op = "Write" ->
          << R("scalars"), R("outl"), R("cmap"), R("gdef"), R("gsub"), R("gpos"), R("pkg") >>
